@@ -10,6 +10,7 @@
 
 mod exec;
 mod fam_a;
+mod fam_c;
 mod interpose;
 mod model;
 mod pool;
@@ -72,6 +73,7 @@ pub struct CheckDef {
 pub fn checks() -> Vec<CheckDef> {
     let mut v = Vec::new();
     v.extend(fam_a::checks());
+    v.extend(fam_c::checks());
     v
 }
 
@@ -89,6 +91,7 @@ fn main() {
         Some("replay") => pool::cmd_replay(&args[2..]),
         Some("selftest") => pool::cmd_selftest(&args[2..]),
         Some("gen") => pool::cmd_gen(&args[2..]),
+        Some("victim") => fam_a::victim_main(args.get(2).map(|s| s.as_str()).unwrap_or("")),
         _ => {
             eprintln!("usage: tcsim check <ID> <quick|thorough> | replay <file> | selftest determinism [ID…]");
             2
